@@ -86,8 +86,19 @@ def sparse_generic_partial():
     cells untouched (True, as first read) or clear the row before writing (False)?"""
     src = X.strip_comments(X.read(SPARSE))
     body, ln = func_body(src, r'SparseMaximumLikelihoodModel<E>::sync\s*\(\s*const\s+size_t\s+s\s*,\s*const\s+size_t\s+a\s*\)\s*\{', 'SparseMaximumLikelihoodModel::sync(s,a)')
-    m = X.find1(r'if\s+constexpr\s*\(\s*IsExperienceEigen<E>\s*\)\s*\{', body, 'if constexpr (IsExperienceEigen<E>) in sparse sync(s,a)')
-    eig, start = block_after(body, m.end() - 1)
+    m0 = X.find1(r'if\s+constexpr\s*\(\s*IsExperienceEigen<E>', body, 'if constexpr (IsExperienceEigen<E> …) in sparse sync(s,a)')
+    # skip to the parenthesis closing the condition (it may contain a requires-expression with braces), then to the block
+    i = body.index('(', m0.start()); depth = 0
+    while True:
+        if body[i] == '(':
+            depth += 1
+        elif body[i] == ')':
+            depth -= 1
+            if depth == 0:
+                break
+        i += 1
+    j = body.index('{', i)
+    eig, start = block_after(body, j)
     rest = body[start + len(eig):]
     m2 = X.find1(r'^\s*else\s*\{', rest, 'else branch of the Eigen test in sparse sync(s,a)')
     els, _ = block_after(rest, m2.end() - 1)
